@@ -25,6 +25,7 @@ fn main() {
         }
     }
     let f = verif_harness::registry::lookup(&name).expect("unknown harness");
+    println!("NATIVE start {}", name); // allocates stdout's buffer before allocation tracking starts
     std::panic::set_hook(Box::new(|_| {}));
     unsafe { native::INPUTS = inputs; }
     native::set_tracking(true);
